@@ -130,6 +130,164 @@ def run(ctx):
       ctx.ob('R21.4', cb.n, 'same satpoint ⇒ error unless self.reinscribe', len(re_g) == 1 and re_g[0].pol is True, f'{[(g.atom, g.pol) for g in inner]}', where(cb, l.line))
       op_g = [g for g in inner if any(o == 'Eq' and p is False and 'outpoint' in names_of(a) and 'outpoint' in names_of(b_) for o, a, b_, p in g.forms())]
       ctx.ob('R21.4', cb.n, 'same outpoint, different sat ⇒ always an error', len(op_g) == 1, f'{[(g.atom, g.pol) for g in inner]}', where(cb, l.line))
+  _r21_5(ctx, F, cb)
+  _r21_6(ctx, F)
+
+
+# reviewed reference table for R21.6 (one line of reason each): where create_batch_transactions puts inscription i of a batch.
+# The reveal outputs are: one output per parent (returned to the wallet), then the inscription outputs.
+LAYOUT = {
+  'SameSat': ('parents', 'zero', 'all inscriptions on the first sat of the single output after the parents'),
+  'SharedOutput': ('parents', 'postage-prefix', 'one output after the parents; inscription i sits after the postages of the inscriptions before it'),
+  'SeparateOutputs': ('parents+i', 'zero', 'one output per inscription after the parents'),
+  'SatPoints': ('parents+i', 'zero', 'one output per inscription (its own satpoint) after the parents'),
+}
+
+
+def _r21_5(ctx, F, cb):
+  from ..affine import Analysis, Aff, pkey, DISCR, agg_sites, state_after_stmt
+  ctx.rule('R21.5', 'create_batch_transactions: the runestone pointer of an etching with a premine is the output index reported as the premine location (RuneInfo.location.vout), '
+           'that index is the premine output pushed last before the runestone is built, and both exist exactly when premine > 0')
+  an = Analysis(cb, adts=F.adts)
+  rs = agg_sites(cb, r'ordinals::runestone::Runestone$')
+  if not ctx.anchor('R21.5', 'Runestone literal of the etching', len(rs) == 1, cb.n):
+    return
+  bb, i, stm = rs[0]
+  fs = stm['rv'].get('fields') or []
+  dk = pkey(stm['p'])
+  pk = (dk[0], dk[1] + (('f', fs.index('pointer')),))
+  # the reported vout: third component of the tuple stored in `rune`, mapped into RuneInfo by the closure
+  tup = [(b2, i2, s2) for b2 in cb.reachable_from(0) for i2, s2 in enumerate(cb.blocks[b2]['s']) if s2.get('rv', {}).get('k') == 'agg' and s2['rv'].get('ak') == 'tuple' and len(s2['rv'].get('ops', [])) == 3
+         and cb.dominates(bb, b2)]
+  vl = None
+  for b2, i2, s2 in tup:
+    o = s2['rv']['ops'][2]
+    for x in origins(cb, o, named_terminal=True):
+      if x.kind == 'var' and x.local is not None and (cb.local_ty(x.local) or '').startswith('std::option::Option<u32>'):
+        vl = x.local
+  if not ctx.anchor('R21.5', 'reported (destination, rune, vout) tuple', vl is not None, cb.n):
+    return
+  cl = [c for c in F.closures_of(cb.n) if any(s2.get('rv', {}).get('k') == 'agg' and norm(s2['rv'].get('adt') or '').endswith('RuneInfo') for blk in c.blocks for s2 in blk['s'])]
+  ok_cl = False
+  for c in cl:
+    for blk in c.blocks:
+      for s2 in blk['s']:
+        rv = s2.get('rv', {})
+        if rv.get('k') == 'agg' and norm(rv.get('adt') or '').endswith('RuneInfo'):
+          f2 = rv.get('fields') or []
+          lo = deep_origins(c, rv['ops'][f2.index('location')], all_args=True)
+          ok_cl = any(o.kind == 'param' and tuple(o.fields)[-1:] == ('2',) for o in lo)
+  ctx.ob('R21.5', cb.n, 'RuneInfo.location is built from the third tuple component', ok_cl, '', where(cb, stm['l']))
+  sts = state_after_stmt(an, bb, i)
+  ctx.sites(len(sts))
+  lens = None
+
+  def chk(s):
+    vd = s.m.get((vl, DISCR))
+    pd = s.m.get((pk[0], pk[1] + DISCR))
+    from ..affine import _NEG
+    SOME, NONE = Aff.sym(('variant', 'Some')), Aff.sym(('variant', 'None'))
+    cond = pd.single()[1] if pd is not None and pd.single() and pd.single()[0] == 'then_some' else None
+    present = pd == SOME or (cond is not None and cond in s.guards)
+    absent = pd == NONE or (cond is not None and (_NEG[cond[0]], cond[1], cond[2]) in s.guards)
+    if vd == SOME:
+      if not present:
+        return f'a location is reported but the pointer ({pd}) is not known to be present under {s.guards}'
+      pv, vv = s.val((pk[0], pk[1] + (('v', 'Some'), ('f', 0)))), s.val((vl, (('v', 'Some'), ('f', 0))))
+      return True if pv == vv else f'pointer = {pv}, reported vout = {vv}'
+    if vd == NONE:
+      return True if absent else f'no location is reported but the pointer ({pd}) may be present under {s.guards}'
+    return f'reported vout unknown ({vd})'
+  bad = [r for r in map(chk, sts) if r is not True]
+  ctx.ob('R21.5', cb.n, 'runestone pointer == reported premine vout, present under the same condition', bool(sts) and not bad, '; '.join(bad[:2]), where(cb, stm['l']))
+  # that index is the last output at that point: reveal_outputs.len() - 1
+  pushes = [c for c in cb.calls if c.is_('std::vec::Vec::push') and cb.reaches(c.bb, bb) and 'reveal_outputs' in {o.name for o in origins(cb, c.args[0], named_terminal=True)}]
+  rl = [l for l in range(len(cb.locals)) if cb.local_name(l) == 'reveal_outputs']
+  okl = bool(rl)
+  msg = ''
+  for s in sts:
+    if s.m.get((vl, DISCR)) == Aff.sym(('variant', 'Some')) and rl:
+      cur = s.val((rl[0], ('#len',)))
+      vv = s.val((vl, (('v', 'Some'), ('f', 0))))
+      if cur - Aff.const(1) != vv:
+        okl = False
+        msg = f'len = {cur}, vout = {vv}'
+  ctx.ob('R21.5', cb.n, 'the reported vout is the output pushed last before the runestone is built (the premine output)', okl and bool(pushes), msg, where(cb, stm['l']))
+
+
+def _r21_6(ctx, F):
+  from ..affine import Analysis, Aff, pkey, agg_sites, state_after_stmt
+  ctx.rule('R21.6', 'Plan::output reports, per mode, the place create_batch_transactions puts inscription i (reviewed LAYOUT table): vout = parents (+ i), offset = 0 or the sum of the postages before i; '
+           'the id is (reveal, i) and the location is in the reveal transaction')
+  b = ctx.body('R21.6', PLAN + '::output')
+  if b is None:
+    return
+  an = Analysis(b, adts=F.adts)
+  infos = agg_sites(b, r'InscriptionInfo$')
+  if not ctx.anchor('R21.6', 'InscriptionInfo literal', len(infos) == 1, b.n):
+    return
+  bb, i, stm = infos[0]
+  fs = stm['rv'].get('fields') or []
+  dk = pkey(stm['p'])
+  sts = state_after_stmt(an, bb, i)
+  ctx.sites(len(sts))
+  reveal = [l for l in range(1, b.argc + 1) if b.local_name(l) == 'reveal']
+  insc = [l for l in range(1, b.argc + 1) if b.local_name(l) == 'inscriptions']
+  if not ctx.anchor('R21.6', 'parameters reveal / inscriptions', len(reveal) == 1 and len(insc) == 1, b.n):
+    return
+  R = Aff.sym(('init', (reveal[0], ())))
+  sub = lambda *path: (dk[0], dk[1] + tuple(('f', x) for x in path))
+  fi = {n: fs.index(n) for n in ('id', 'location') if n in fs}
+  seen = {}
+  for s in sts:
+    mode = [g[2].single()[1] for g in s.guards if g[0] == 'Eq' and g[2].single() and g[2].single()[0] == 'variant' and 'mode' in an.field_names(g[1])]
+    if len(set(mode)) != 1:
+      seen.setdefault('?', []).append(s)
+    else:
+      seen.setdefault(mode[0], []).append(s)
+  ctx.ob('R21.6', b.n, 'every path to the report has matched self.mode', '?' not in seen and set(seen) == set(LAYOUT), f'{sorted(seen)}', where(b, stm['l']))
+  # id = (reveal, i); location.outpoint.txid = reveal
+  # InscriptionId {txid, index}; SatPoint {outpoint {txid, vout}, offset}
+  idx_sym = None
+  for m, ss in seen.items():
+    if m not in LAYOUT:
+      continue
+    want_v, want_o, why = LAYOUT[m]
+    for s in ss:
+      txid_id, index_id = s.val(sub(fi['id'], 0)), s.val(sub(fi['id'], 1))
+      txid_loc, vout, off = s.val(sub(fi['location'], 0, 0)), s.val(sub(fi['location'], 0, 1)), s.val(sub(fi['location'], 1))
+      isym = index_id.single()
+      pl = [x for x in vout.syms() if isinstance(x, tuple) and x[0] in ('init', 'f') and 'parent_info' in an.field_names(Aff.sym(x))]
+      okv = False
+      if len(pl) == 1:
+        PL = Aff.sym(pl[0])
+        okv = vout == (PL if want_v == 'parents' else PL + index_id) and pl[0][-1][-1:] == ('#len',) if pl[0][0] == 'f' else vout == (PL if want_v == 'parents' else PL + index_id)
+      ctx.ob('R21.6', b.n, f'{m}: vout = {want_v}', okv and isym is not None, f'vout = {vout}, index = {index_id} ({why})', where(b, stm['l']))
+      if want_o == 'zero':
+        oko = off == Aff.const(0)
+        d = f'offset = {off}'
+      else:
+        osy = off.single()
+        oko = False
+        d = f'offset = {off}'
+        if isinstance(osy, tuple) and osy[0] == 'call':
+          t = b.blocks[osy[1]]['t']
+          if norm(t['f'].get('res') or t['f'].get('fn') or '').endswith('Iterator::sum'):
+            oo = deep_origins(b, t['args'][0], all_args=True)
+            for o in list(oo):
+              if o.kind == 'agg' and norm(o.agg.get('adt') or '').endswith('ops::Range'):
+                for op in o.agg.get('ops', []):
+                  oo += deep_origins(b, op, all_args=True)
+            names = {(o.kind, o.name, tuple(o.fields)[:1]) for o in oo}
+            uses_post = any(o.kind == 'param' and o.name == 'self' and 'postages' in o.fields for o in oo)
+            uses_idx = any(o.kind == 'call' and isym is not None and isym[0] == 'f' and ('call', o.call.bb) == isym[1] for o in oo) or any(o.kind == 'call' and o.call.is_('re:Range.*Iterator>::next$') for o in oo)
+            uses_insc = any(o.kind == 'param' and o.name == 'inscriptions' for o in oo)
+            to_sat = any(c.is_('bitcoin::Amount::to_sat') for cb_ in F.closures_of(b.n) for c in cb_.calls)
+            oko = uses_post and uses_idx and not uses_insc and to_sat
+            d = f'sum over {sorted(n for n in names if n[1])[:5]}'
+      ctx.ob('R21.6', b.n, f'{m}: offset = {want_o}', oko, d, where(b, stm['l']))
+      ctx.ob('R21.6', b.n, f'{m}: id = (reveal, i) and the location is in the reveal transaction', txid_id == R and txid_loc == R and isym is not None and isym[0] == 'f', f'id.txid = {txid_id}, location txid = {txid_loc}, index = {index_id}', where(b, stm['l']))
+      break
 
 
 def _cmp_names(g):
@@ -137,10 +295,14 @@ def _cmp_names(g):
 
 
 # sensitivity pack (thorough tier)
-MUTANTS = [{'name': 'runic outputs allowed as commit input', 'file': 'src/wallet/batch/plan.rs', 'old': '            && !runic_utxos.contains(outpoint)\n', 'new': '', 'expect': ('R21.2', '', 'runic_utxos')},
+MUTANTS = [{'name': 'seeded-C21-a', 'patch': 'C21-a/patch.diff', 'expect': ('R21.6', 'Plan::output', 'SharedOutput: offset')},
+           {'name': 'seeded-C21-b', 'patch': 'C21-b/patch.diff', 'expect': ('R21.5', 'create_batch_transactions', 'runestone pointer')},
+           {'name': 'runic outputs allowed as commit input', 'file': 'src/wallet/batch/plan.rs', 'old': '            && !runic_utxos.contains(outpoint)\n', 'new': '', 'expect': ('R21.2', '', 'runic_utxos')},
            {'name': 'locked test inverted', 'file': 'src/wallet/batch/plan.rs', 'old': '            && !locked_utxos.contains(outpoint)', 'new': '            && locked_utxos.contains(outpoint)', 'expect': ('R21.2', '', 'locked_utxos')},
            {'name': 'same-outpoint check skipped when reinscribing', 'file': 'src/wallet/batch/plan.rs', 'old': '      if inscribed_satpoint.outpoint == satpoint.outpoint {', 'new': '      if !self.reinscribe && inscribed_satpoint.outpoint == satpoint.outpoint {', 'expect': ('R21.4', 'create_batch_transactions', 'same outpoint')}]
 
 
 # behaviour-preserving pack (thorough tier)
-NEUTRAL = [{'name': 'predicate terms reordered', 'file': 'src/wallet/batch/plan.rs', 'old': '            && !inscribed_utxos.contains(outpoint)\n            && !locked_utxos.contains(outpoint)\n', 'new': '            && !locked_utxos.contains(outpoint)\n            && !inscribed_utxos.contains(outpoint)\n'}]
+NEUTRAL = [{'name': 'pointer taken from the reported vout', 'file': 'src/wallet/batch/plan.rs', 'old': 'pointer: (premine > 0).then_some((reveal_outputs.len() - 1).try_into().unwrap()),', 'new': 'pointer: vout,'},
+           {'name': 'postage prefix written with take(i)', 'file': 'src/wallet/batch/plan.rs', 'old': 'Mode::SharedOutput => self.postages[0..i]\n          .iter()', 'new': 'Mode::SharedOutput => self\n          .postages\n          .iter()\n          .take(i)'},
+           {'name': 'predicate terms reordered', 'file': 'src/wallet/batch/plan.rs', 'old': '            && !inscribed_utxos.contains(outpoint)\n            && !locked_utxos.contains(outpoint)\n', 'new': '            && !locked_utxos.contains(outpoint)\n            && !inscribed_utxos.contains(outpoint)\n'}]
